@@ -6,7 +6,5 @@ export GOFLAGS=-mod=mod GOPROXY=off GOSUMDB=off GOTOOLCHAIN=local
 mkdir -p build evidence replays
 cp /repo/go.sum sim/go.sum
 (cd sim && go1.26.8 test -c -tags verif -o ../build/worker-plain ./w)
-if [ -d sim/wi ]; then
-  (cd sim && go1.26.8 run ./tools/instrument -repo /repo -out ../build/overlay && go1.26.8 test -c -tags verif -overlay ../build/overlay/overlay.json -o ../build/worker-inst ./wi)
-fi
+(cd sim && go1.26.8 run ./tools/instrument -repo /repo -out ../build/overlay && go1.26.8 test -c -tags "verif inst" -overlay ../build/overlay/overlay.json -o ../build/worker-inst ./w)
 echo setup ok
